@@ -355,7 +355,7 @@ func c02Work(c *engine.Ctx) {
 func init() {
 	register(&engine.Check{
 		ID: "C02", Level: "exploration",
-		Rule: "all atom sequences up to the per-alphabet bound and all single-edit neighbours/truncations of the seed catalogue through css.Lexer, js.Lexer×{Next only, RegExp() after / and /=} (valid UTF-8 only), html.Lexer×{plain, each delimiter pair}, xml.Lexer; after every Next: token == input[offset-len:offset] (pointer identity and content vs a pristine copy modulo the two documented rewrites), strictly increasing non-overlapping, non-empty, gap rules, accessors inside the token, append safety, single-token re-lex (css/js); after the run: the set of altered input bytes. distinct_nontrivial = canonical sequences of ≥2 atoms + distinct edit-ball members",
+		Rule:        "all atom sequences up to the per-alphabet bound and all single-edit neighbours/truncations of the seed catalogue through css.Lexer, js.Lexer×{Next only, RegExp() after / and /=} (valid UTF-8 only), html.Lexer×{plain, each delimiter pair}, xml.Lexer; after every Next: token == input[offset-len:offset] (pointer identity and content vs a pristine copy modulo the two documented rewrites), strictly increasing non-overlapping, non-empty, gap rules, accessors inside the token, append safety, single-token re-lex (css/js); after the run: the set of altered input bytes. distinct_nontrivial = canonical sequences of ≥2 atoms + distinct edit-ball members",
 		Assumptions: []string{"JS template middle/tail tokens are re-lexed after the prefix `${ that recreates the lexer state in which they are tokens; RegExp tokens are covered by C06", "CSS BadString/BadURL count as lexical errors for the re-lex clause"},
 		Setup:       c02Setup, Work: c02Work,
 	})
